@@ -10,6 +10,10 @@ L3: the property statement evaluated directly on the implementation, no Lean inv
     partition the keys and their spectra add up, bootstraps are sums of the chosen chunk spectra, sub-sampling uses exactly
     the requested number of individuals, statistics recomputed from the columns (pairwise differences by brute force,
     Tajima 1989, Weir & Cockerham 1984 eqs. 2-4 with the random-mating closure).
+    The clauses are evaluated in SEQUENCES on one object: spectrum built with mask_corners False and True -> entries / mask /
+    total (masked sum and data sum) -> every statistic and derived quantity, each one required to leave data, mask, folded flag
+    and labels untouched (`check_pure`) -> entries / mask / total again; chunk spectra: statistics on every chunk spectrum, then
+    chunk totals, their sum and the sum of the spectra (added as spectra) against the whole again; bootstraps likewise.
 """
 import os, math, itertools, tempfile, shutil, warnings, functools, operator, random as pyrandom
 from fractions import Fraction
@@ -1396,7 +1400,10 @@ def run(chk, ctx):
                 'SNP-file format (multi-character alleles, "-"/N outgroup, ids or no ids); hand-made dictionaries (non-biallelic entries, no outgroup key, additional_info). '
                 'Per data set 2-3 configurations (population subset/order, projections incl. full, 1, n-1; polarised or folded; corners masked or not), one chunk size from '
                 '{1,2,7,span/17,span/7,span/2,span,3*span} (at most ~60 chunks per chromosome), 1-3 bootstraps with recorded choices, one sub-sampling request with recorded draws. Complete data sets for the statistics. '
-                'non-trivial = distinct (stage, #populations, polarised, mask, projection class, some/all/no SNP usable, chunk/bootstrap/sub-sampling class)')
+                'Every spectrum is built with mask_corners=False and with the configured value; on both objects: clauses, then every statistic (S, Watterson_theta, theta_L, pi, Tajima_D, Zengs_E / S, Fst) '
+                'and derived quantity (sample_sizes, Npop, fold, project, marginalize) one by one with the object compared before/after, then the clauses again on the same object; chunk spectra and bootstraps likewise '
+                '(lines with allele frequency 0 or 1 and population subsets put usable SNPs into the corner entries: see the stats cfg:corner-entries, pure:corners). '
+                'non-trivial = distinct (stage, #populations, polarised, mask, projection class, some/all/no SNP usable, corner entries populated, chunk/bootstrap/sub-sampling class; for purity: method, dimension, folded, corners populated / masked)')
     chk.unproved = [
         'text parsing (VCF, popinfo, SNP file) is not modelled in Lean: the abstraction of a line to the fields the model looks at is done by the harness and validated by K through the real parsers',
         'numpy slicing/broadcasting of _from_count_dict, masked-array arithmetic (corners not accumulated when masked) and Spectrum.fold are tied to the pointwise model by K only',
@@ -1404,7 +1411,8 @@ def run(chk, ctx):
         "the square root in Tajima's D is a parameter (the harness supplies math.sqrt of the model's exact argument); 1e-8 tolerance there",
         'the statistics theorems (C13_S, C13_pi, C13_watterson, C13_tajima, C13_fst) are stated for completely called, unprojected data; for projected / folded spectra the statistics are compared with the model numerically (K) only',
         'random choices (bootstrap chunks, sub-sampled individuals) are parameters: recorded from the real run and replayed by the model; that numpy draws without replacement is checked on the recorded draws only',
-        'the chunk loop is modelled position by position (restart from chunk 0) and tied to the carried-along loop of the code by K; gz/zip inputs are not exercised']
+        'the chunk loop is modelled position by position (restart from chunk 0) and tied to the carried-along loop of the code by K; gz/zip inputs are not exercised',
+        'that a statistic leaves the spectrum unchanged is proved for `S` on the statement-level model (copy vs alias of the saved mask, `C13_S_pure`) and is a syntactic scan for the other statistics (`C13_stats_read_only`); numpy masked-array aliasing itself (that `self.mask` is a view, that `self.mask = m` copies values) is validated by K (`sstate`) and by the before/after comparison on the real objects only']
     nv = 50 if tier == 'quick' else 500
     ns = 16 if tier == 'quick' else 150
     nd = 16 if tier == 'quick' else 120
